@@ -49,7 +49,23 @@ pub fn run_case(c: &J) -> J {
     let ctx = Ctx::from(c);
     match c["mode"].as_str().unwrap() {
         "record" => {
+            // "stale": the destination already holds another COMPLETE file (written here by the real writer from "stale_items") that
+            // the new write goes over: a crash image is then old bytes with a prefix of the new operations applied
+            let mut pre: Vec<u8> = vec![];
+            let mut stale_view = J::Null;
+            if c["stale"].as_i64().unwrap_or(0) == 1 {
+                let mut ca = c.clone();
+                ca["items"] = c["stale_items"].clone();
+                let sa = OpSink::new(None);
+                if let Err(e) = write_to(&ca, &Ctx::from(&ca), sa.clone()) {
+                    return json!({"result": "err", "err": format!("stale file: {}", e)});
+                }
+                pre = sa.inner.lock().unwrap().data.clone();
+                // (projected like every crash image: through the NEW case's naming of values / entries)
+                stale_view = slim(&observe(c, pre.clone()));
+            }
             let sink = OpSink::new(None);
+            sink.inner.lock().unwrap().data = pre.clone();
             let res = write_to(c, &ctx, sink.clone());
             if let Err(e) = res {
                 return json!({"result": "err", "err": e});
@@ -65,7 +81,7 @@ pub fn run_case(c: &J) -> J {
             }
             let full = observe(c, g.data.clone());
             // every crash prefix
-            let mut img: Vec<u8> = vec![];
+            let mut img: Vec<u8> = pre.clone();
             let mut prefixes = vec![];
             let mut last_sig: Option<Vec<u8>> = None;
             for (k, (kind, off, b)) in g.ops.iter().enumerate() {
@@ -83,7 +99,7 @@ pub fn run_case(c: &J) -> J {
                     last_sig = Some(vec![]);
                 }
             }
-            json!({"result": "ok", "nops": g.ops.len(), "ops": ops, "full": slim(&full), "prefixes": prefixes, "filelen": g.data.len()})
+            json!({"result": "ok", "nops": g.ops.len(), "ops": ops, "full": slim(&full), "prefixes": prefixes, "filelen": g.data.len(), "stale": stale_view})
         }
         "refused" => {
             // an input the writer refuses part-way: what is the destination left with?
